@@ -187,7 +187,7 @@ def pmap(fn: Callable, items: list, procs: int = NPROC, chunk: int | None = None
     """Order-preserving multiprocessing map over picklable items; falls back to serial for small inputs."""
     import multiprocessing as mp
 
-    if len(items) < 32 or procs <= 1:
+    if len(items) < 32 or procs <= 1 or os.environ.get("VERIF_SERIAL"):   # VERIF_SERIAL: audits (tools/cov_audit.sh) measure one process
         return [fn(x) for x in items]
     cs = chunk or max(1, len(items) // (procs * 8))
     with mp.get_context("fork").Pool(procs) as pool:
